@@ -137,6 +137,7 @@ def run(ctx):
     phase_stream(ctx, cirq, mods, checks, 90 * n)
     predicate_stream(ctx, cirq, mods, checks, n)
     cv_stream(ctx, cirq, mods, checks, n)
+    tdb_grid(ctx, cirq, mods, checks)
     evaluate(ctx, checks)
 
 
@@ -602,6 +603,62 @@ def predicate_stream(ctx, cirq, mods, checks, n):
                 checks.append(('trace_distance_bound', 'false',
                                f'trace_distance_bound({g.fam} {g.key()[1]}) = {b} is below the actual value {t}',
                                dict(signature=f'tdb:{form}:{g.fam}', gate=g.key(), form=form, bound=b, actual=t)))
+
+
+def tdb_grid(ctx, cirq, mods, checks):
+    """trace_distance_bound of every class that implements it itself, over a fixed grid of exponents x global shifts (and copy counts /
+    control patterns for the composite ones), as gate, operation, tagged operation and controlled_by operation: never below the actual
+    maximal trace distance of the object's matrix (the matrices are the ones C03 ties to the model; numpy computes the eigenphase arc)."""
+    exps = [0.05, 0.25, 0.45, 0.5, 0.75, 1.0, 1.25, 1.5, 1.95, 2.0, -0.3]
+    shifts = [0.0, 0.5, -0.5, 0.3]
+    q = cirq.LineQubit.range(6)
+    objs = []
+    eig = [cirq.XPowGate, cirq.YPowGate, cirq.ZPowGate, cirq.HPowGate, cirq.CZPowGate, cirq.CXPowGate, cirq.SwapPowGate, cirq.ISwapPowGate,
+           cirq.XXPowGate, cirq.YYPowGate, cirq.ZZPowGate, cirq.CCZPowGate, cirq.CCXPowGate]
+    for cls in eig:
+        for e in exps:
+            for sh in shifts:
+                objs.append((f'{cls.__name__}(exponent={e}, global_shift={sh})', cls(exponent=e, global_shift=sh)))
+    for e in exps:
+        objs += [(f'PhasedXPowGate(exponent={e}, phase_exponent=0.3, global_shift={sh})', cirq.PhasedXPowGate(exponent=e, phase_exponent=0.3, global_shift=sh)) for sh in shifts]
+        objs += [(f'ms({e}*pi/2)', cirq.ms(e * math.pi / 2)), (f'rx({e}*pi)', cirq.rx(e * math.pi)), (f'rz({e}*pi)', cirq.rz(e * math.pi)),
+                 (f'PhasedISwapPowGate(phase_exponent=0.2, exponent={e})', cirq.PhasedISwapPowGate(phase_exponent=0.2, exponent=e)),
+                 (f'FSimGate({e}, {e / 2})', cirq.FSimGate(e, e / 2)), (f'CSWAP**{e}' if False else f'givens({e})', cirq.givens(e))]
+        for en in (0.0, 0.3, -0.4):
+            objs.append((f'PauliStringPhasor(X0*Z1, exponent_neg={e}, exponent_pos={en})',
+                         cirq.PauliStringPhasor(cirq.X(q[0]) * cirq.Z(q[1]), exponent_neg=e, exponent_pos=en)))
+    objs += [('CSWAP', cirq.CSWAP), ('IdentityGate(2)', cirq.IdentityGate(2)), ('WaitGate', cirq.WaitGate(cirq.Duration(nanos=5))),
+             ('GlobalPhaseGate(1j)', cirq.GlobalPhaseGate(1j))]
+    subs = [(f'X**{e}', cirq.X**e) for e in (0.1, 0.25, 0.45, 0.5, 0.75, 1.0, 1.3)] + [(f'Z**{e}', cirq.Z**e) for e in (0.25, 0.45, 0.5)] + \
+           [('rz(0.7)', cirq.rz(0.7)), ('H**0.5', cirq.H**0.5), ('XPowGate(exponent=0.25, global_shift=0.5)', cirq.XPowGate(exponent=0.25, global_shift=0.5))]
+    for sn, sg in subs:
+        for ncopy in (1, 2, 3, 4, 5):
+            objs.append((f'ParallelGate({sn}, {ncopy})', cirq.ParallelGate(sg, ncopy)))
+        objs.append((f'parallel_gate_op({sn}, 3 qubits)', cirq.parallel_gate_op(sg, *q[:3])))
+        for cv in ([1], [0], [1, 1], [0, 1]):
+            objs.append((f'ControlledGate({sn}, control_values={cv})', cirq.ControlledGate(sg, num_controls=len(cv), control_values=cv)))
+        objs.append((f'ControlledGate({sn}, control_qid_shape=(3,), control_values=[2])', cirq.ControlledGate(sg, control_values=[2], control_qid_shape=(3,))))
+        objs.append((f'ControlledGate({sn}, SumOfProducts 00|11)', cirq.ControlledGate(sg, control_values=cirq.SumOfProducts([(0, 0), (1, 1)]))))
+    for name, obj in objs:
+        forms = [('as given', obj)]
+        if isinstance(obj, cirq.Gate):
+            qs = cirq.LineQid.for_gate(obj, start=2)
+            op = obj.on(*qs)
+            forms += [('operation', op), ('tagged operation', op.with_tags('t')), ('controlled_by(q0)', op.controlled_by(q[0])),
+                      ('controlled_by(q0, q1; values 0, 1)', op.controlled_by(q[0], q[1], control_values=[0, 1]))]
+        for fname, x in forms:
+            if int(np.prod(cirq.qid_shape(x) or (1,))) > 64:
+                continue
+            try:
+                b = cirq.trace_distance_bound(x)
+                t = true_trace_distance_bound(unitary_of(cirq, x))
+            except Exception as e:
+                ctx.violation('tdb_grid:raises', f'trace_distance_bound / unitary of {name} [{fname}] raised {type(e).__name__}: {e}', dict(kind='tdb_grid', obj=name, form=fname))
+                continue
+            ctx.count('tdb_grid', [name, fname], t > 1e-6, sample=dict(obj=name, form=fname, bound=b, actual=t))
+            if not (b >= t - 1e-7):
+                checks.append(('tdb_grid', 'false', f'trace_distance_bound({name} [{fname}]) = {b} is below the actual maximal trace distance {t}',
+                               dict(signature=f'tdb_grid:{type(obj).__name__}:{fname}', obj=name, form=fname, bound=float(b), actual=float(t))))
 
 
 def replay(ctx, data):
